@@ -16,7 +16,7 @@
 (* loaded rule (clone, then optimise with a switch set; a reload).  All    *)
 (* share the case's denotation.                                            *)
 (***************************************************************************)
-EXTENDS Naturals, Sequences, FiniteSets, TauLang, TauCond
+EXTENDS Naturals, Sequences, FiniteSets, TLC, TauLang, TauCond
 
 VARIABLES
   cur,      \* current case: [src, docs, plan, ...]
@@ -33,16 +33,21 @@ IsSw(s) == s = NoSw \/ (Len(s) = 4 /\ \A i \in 1..4 : s[i] \in BOOLEAN)
 RInit == /\ cur = [src |-> [cond |-> [t |-> "none"], ids |-> <<>>], docs |-> <<>>]
          /\ phase = "idle" /\ objs = <<>> /\ den = <<>> /\ prints = <<>>
 
-(* a new case: a fresh rule text *)
-NewCase(c) == /\ cur' = c /\ phase' = "idle" /\ objs' = <<>> /\ den' = <<>> /\ prints' = <<>>
-
 (* A condition may be given as TEXT (C05, C03): its meaning is then the tree the reference     *)
 (* grammar assigns to it.                                                                     *)
 IdNames(src) == {src.ids[i][1] : i \in DOMAIN src.ids}
 IsText(src) == src.cond.t = "text"
-CondAst(src) == IF IsText(src) THEN RefCondOfText(src.cond.s, IdNames(src)) ELSE src.cond
+ParseText(src) == RefCondOfText(src.cond.s, IdNames(src))
+(* the parse of the case's own condition text is computed once, when the case starts (cur.ast) *)
+CondAst(src) == IF ~IsText(src) THEN src.cond
+                ELSE IF "ast" \in DOMAIN cur /\ src = cur.src THEN cur.ast ELSE ParseText(src)
 Ast(src) == [cond |-> CondAst(src), ids |-> src.ids]
 TextOk(src) == ~IsErr(CondAst(src))
+
+(* a new case: a fresh rule text *)
+NewCase(c) == /\ cur' = (IF "src" \in DOMAIN c /\ IsText(c.src) THEN [ast |-> ParseText(c.src)] @@ c ELSE c)
+              /\ phase' = "idle" /\ objs' = <<>> /\ den' = <<>> /\ prints' = <<>>
+
 
 (* which documents of the case have a language-level oracle *)
 HasOracle(c) == "oracle" \in DOMAIN c /\ c.oracle /\ "src" \in DOMAIN c
